@@ -20,7 +20,8 @@ def run(tier: str) -> int:
         hs = hs[:4000]
     for i, h in enumerate(hs):
         for g in games:
-            scns.append({"id": f"h{i}", "game": g, "hist": h["hist"], "shape": h["shape"], "mapset": g in ("sm", "o2j") or i % 3 == 0})
+            scns.append({"id": f"h{i}", "game": g, "hist": h["hist"], "shape": h["shape"], "mapset": g in ("sm", "o2j") or i % 3 == 0,
+                         "variant": ("plain", "stack_edit", "int_cols", "plain")[(i + len(g)) % 4]})
     # random rates in (0.1, 10)
     for i in range(300 if tier == "quick" else 5000):
         n, d = rr.randint(1, 100), rr.randint(1, 100)
